@@ -167,7 +167,7 @@ class Gen:
                 pos, kw = self.kv(parts[2:])
                 mod.run(self, kw, None, 'specs/' + spec_rel, i + 1)
                 i += 1
-            elif d in ('fn', 'arm', 'closure', 'loopbody', 'fnprefix'):
+            elif d in ('fn', 'arm', 'closure', 'loopbody', 'fnprefix', 'trait', 'implall'):
                 j = i + 1
                 block = []
                 while j < len(lines) and lines[j].strip() != '//@end':
@@ -548,6 +548,139 @@ class Gen:
         if not braced:
             self.emit('}', 'spec', specfile, specline, False)
         self.end_block(c_lo, c_hi)
+
+    @staticmethod
+    def method_rules(block):
+        """block lines -> (extra_text, [(regex, contract_text, attrs)])"""
+        extra, rules, cur = [], [], None
+        for (ln, raw) in block:
+            s = raw.strip()
+            if s.startswith('//@methods'):
+                parts = s.split()
+                cur = [re.compile('^(?:%s)$' % parts[1]), [], [p[5:] for p in parts[2:] if p.startswith('attr=')]]
+                rules.append(cur)
+            elif s.startswith('//@extra'):
+                cur = None
+            elif s.startswith('//@'):
+                (cur[1] if cur is not None else extra).append(raw.strip()[3:])
+            else:
+                (cur[1] if cur is not None else extra).append(raw)
+        return '\n'.join(extra), [(r, '\n'.join(c), a) for r, c, a in rules]
+
+    def emit_methods(self, src, rel, it, rules, prefix, specfile, specline, in_trait=True, mode='all'):
+        """emit every fn item directly inside item `it` (trait or impl), each with the first matching contract.
+        mode: 'all' | 'decls' (bodies dropped: declarations with contracts) | 'bodies' (only methods with a body)"""
+        for f in src.items(it.body_open + 1, src.match[it.body_open]):
+            if f.kw != 'fn':
+                if f.kw in ('type', 'const'):
+                    self.emit(self.clean(f.text), 'code', rel, f.line)
+                continue
+            f.ctx = [(it.kw, src.span_text(it.sig_start, it.body_open - 1), it)]
+            contract, attrs = '', []
+            for (rx, c, a) in rules:
+                if rx.match(f.name):
+                    contract, attrs = c, a
+                    break
+            oblig = prefix + '.' + f.name
+            skipbody = 'skipbody' in attrs
+            attrs = [a for a in attrs if a != 'skipbody']
+            if mode == 'bodies' and (f.body_open is None or skipbody):
+                continue
+            if f.body_open is None or mode == 'decls':
+                # declaration only: signature + contract + `;`
+                for a in attrs:
+                    self.emit('#[%s]' % a, 'spec', specfile, specline, False)
+                head, rest = self.named_sig_decl(src, f) if f.body_open is None else self.named_sig(src, f, 'r')
+                self.emit(self.clean(head), 'code', rel, f.line)
+                if rest.strip():
+                    self.emit(self.clean(rest), 'code', rel, f.line)
+                if contract.strip():
+                    self.emit(contract, 'spec', specfile, specline, False)
+                self.emit(';', 'spec', specfile, specline, False)
+                continue
+            self.begin_block(oblig, 'whole', rel, src, f.sig_start, f.end, f.name)
+            for a in attrs:
+                self.emit('#[%s]' % a, 'spec', specfile, specline, False)
+            head, rest = self.named_sig(src, f, 'r')
+            head = self.clean(head)
+            if not in_trait:
+                head = 'pub ' + head
+            self.emit(head, 'code', rel, f.line)
+            if rest:
+                self.emit(self.clean(rest), 'code', rel, f.line)
+            c_lo = len(self.out)
+            if contract.strip():
+                self.emit(contract, 'spec', specfile, specline, False)
+            c_hi = len(self.out)
+            self.emit_segs(self.body_with_insertions(src, f.body_open, f.end, {}, [], rel), rel)
+            self.end_block(c_lo, c_hi, twin_ok=False)
+
+    def named_sig_decl(self, src, f):
+        # a declaration ends with `;` : reuse named_sig on a pseudo item whose "body_open" is the `;`
+        class P: pass
+        p = P()
+        p.sig_start, p.body_open, p.name = f.sig_start, f.end, f.name
+        return self.named_sig(src, p, 'r')
+
+    def find_container(self, rel, kw_, header):
+        src = self.source(rel)
+        want = norm(self.clean(header + ' '))
+
+        def walk(lo, hi):
+            for it in src.items(lo, hi):
+                if it.kw in ('impl', 'trait') and it.body_open is not None:
+                    h = norm(self.clean(src.span_text(it.sig_start, it.body_open - 1)))
+                    if h == want:
+                        return it
+                if it.kw == 'mod' and it.body_open is not None and not it.has_cfg('test'):
+                    r = walk(it.body_open + 1, src.match[it.body_open])
+                    if r:
+                        return r
+            return None
+        it = walk(0, len(src.toks))
+        if it is None:
+            raise LostAnchor('%s not found: %s %s' % (kw_, rel, header))
+        return src, it
+
+    def do_trait(self, parts, block, specfile, specline):
+        """//@trait <src> <header> as=<prefix> : the whole trait, contracts inserted per method (R6)"""
+        pos, kw = self.kv(parts)
+        rel = pos[0]
+        header = ' '.join(pos[1:])
+        src, it = self.find_container(rel, 'trait', header)
+        extra, rules = self.method_rules(block)
+        self.emit('pub ' + self.clean(src.span_text(it.sig_start, it.body_open - 1)) + ' {', 'code', rel, it.line)
+        if extra.strip():
+            self.emit(extra, 'spec', specfile, specline, False)
+        if 'split' in kw:
+            # R8: the trait is emitted as declarations + contracts; its default bodies are verified in a sub-trait
+            # (same signatures, same contracts, bodies verbatim) so that no trait-level cycle arises
+            self.emit_methods(src, rel, it, rules, kw['as'], specfile, specline, in_trait=True, mode='decls')
+            self.emit('}', 'spec', specfile, specline, False)
+            hdr = self.clean(src.span_text(it.sig_start, it.body_open - 1))
+            m = re.match(r'^trait\s+(\w+)(<[^>]*>)?', hdr.strip())
+            sup = m.group(1) + (m.group(2) or '')
+            self.emit('pub trait %s%s: %s {' % (kw['split'], m.group(2) or '', sup), 'spec', specfile, specline, False)
+            self.emit_methods(src, rel, it, rules, kw['as'] + '.default', specfile, specline, in_trait=True, mode='bodies')
+            self.emit('}', 'spec', specfile, specline, False)
+            return
+        self.emit_methods(src, rel, it, rules, kw['as'], specfile, specline, in_trait=True)
+        self.emit('}', 'spec', specfile, specline, False)
+
+    def do_implall(self, parts, block, specfile, specline):
+        """//@implall <src> <header> as=<prefix> : a whole impl block, contracts inserted per method (R6)"""
+        pos, kw = self.kv(parts)
+        rel = pos[0]
+        header = ' '.join(pos[1:])
+        src, it = self.find_container(rel, 'impl', header)
+        extra, rules = self.method_rules(block)
+        hdr = self.clean(src.span_text(it.sig_start, it.body_open - 1))
+        in_trait = re.search(r'\bfor\b(?!\s*<)', strip_generics(hdr)) is not None
+        self.emit(hdr + ' {', 'code', rel, it.line)
+        if extra.strip():
+            self.emit(extra, 'spec', specfile, specline, False)
+        self.emit_methods(src, rel, it, rules, kw['as'], specfile, specline, in_trait=in_trait)
+        self.emit('}', 'spec', specfile, specline, False)
 
     def do_fnprefix(self, parts, block, specfile, specline):
         """R3b: the statements of a function body before a given statement, as a function of their own."""
